@@ -224,6 +224,21 @@ Theorem C01_skeleton : forall l, wf l -> forall k t v,
 Proof. exact skeleton_correct. Qed.
 Print Assumptions C01_skeleton.
 
+(* ---- operator== : a tree rebuilt from the enumeration compares equal after every refined history (repaired
+        bookkeeping; refuted for the original one by C01_dimension_after_emptying_refuted), and the tree equals an
+        empty tree exactly when the abstract complex is empty ---- *)
+Theorem C01_equality_over_histories : forall ops,
+  forallb refined_op ops = true -> ok_history ops = true ->
+  eq_rebuilt (run true ops) = true /\
+  (eq_empty (run true ops) = true <-> forall t, t <> [] -> lookup (spec_run ops) t = None).
+Proof. exact equality_over_histories. Qed.
+Print Assumptions C01_equality_over_histories.
+
+(* ---- num_simplices = cardinal of the abstract complex of the tree ---- *)
+Theorem C01_num_simplices : forall l, wf l -> size_t (Node l) = Z.of_nat (length (keys (abs l))) /\ NoDup (keys (abs l)).
+Proof. exact num_simplices_is_cardinal. Qed.
+Print Assumptions C01_num_simplices.
+
 (* ---- stated, not proved in Coq (compared per input by the correspondence run instead) ---- *)
 (* histories that also contain insert_graph, expansion and num_simplices_by_dimension *)
 Definition C01_history_refines_full : Prop :=
